@@ -343,10 +343,13 @@ PLAN["C15"] = {
 PLAN["C17"] = {
     "level": "model_checking",
     "explanation": "MemReader::ptrace against a stubbed PEEKDATA (a word read succeeds iff the whole word is readable): entirely readable ranges are "
-                   "read exactly, otherwise an error or a true prefix; read_to_vec never exposes more than was read. process_vm_readv and /proc/pid/mem are single syscalls (assumed)",
+                   "read exactly, otherwise an error or a true prefix; read_to_vec never exposes more than was read (Kani, bounded). All three strategies, read and read_to_vec, are checked natively against a forked child around the end of a mapping (bounded-exhaustive, 6144 reads)",
     "verus": [],
     "kani": [{"tiers": Q, "jobs": 5, "timeout": 900, "harnesses": K_PTRACE}],
-    "native_files": [{"name": "c17_ptrace_tail", "tiers": T, "tests": {
+    "native_files": [{"name": "c17_strategies", "tiers": Q, "tests": {
+        "every_strategy_returns_true_bytes_or_a_strict_prefix": H("B'", "MemReader::{read, read_to_vec} with each of the three strategies on a forked, attached child",
+            "3 strategies x 32 starts (every alignment mod 8; first page, last page, 32 and 8 bytes before the end) x 32 lengths (1..=24, around 1 and 2 pages) x 2 entry points = 6144 reads, inside / ending at / across the end of a 3-page region followed by a hole")}},
+                     {"name": "c17_ptrace_tail", "tiers": T, "tests": {
         "ptrace_strategy_reads_ranges_ending_at_a_mapping_end": H("B'", "MemReader::for_ptrace on a forked, attached child", "lengths 1,3,7,8,9,11,17,31 ending at a mapping end")}}],
     "trusted": ["L5: semantics of PTRACE_PEEKDATA, process_vm_readv, pread on /proc/pid/mem"],
     "samples": ["vk_ptrace_read_len11: src + 11 <= HI && src >= LO ==> Ok(11) && dst == mem[src..src+11]"],
